@@ -31,6 +31,7 @@ func c12(c *Ctx) {
 	c12R6(c, "R6")
 	c12R7(c, "R7")
 	sMainSendsBuffered(c, "R8/S-MAINSEND")
+	sTransferWorkerReports(c, "R9")
 	c12R4(c, "R4")
 	sUpToDate(c, "R5/S-UPTODATE", "(*Raft).requestVote", "RequestVoteRequest", "RequestVoteResponse", false, true)
 	sUpToDate(c, "R5/S-UPTODATE", "(*Raft).requestPreVote", "RequestPreVoteRequest", "RequestPreVoteResponse", false, true)
